@@ -157,7 +157,7 @@ def match_columns(datarows, header_row, include, cols):
     colj = [r[j] if j < len(r) else u'' for r in datarows]
     idj = header_row[j].strip() if include and j < len(header_row) else u''
     must = idj != u'' or any(not blank(c) for c in colj)
-    if k < len(cols) and cols[k][0] == idj and cols[k][1] == colj:
+    if k < len(cols) and cols[k][0].strip() == idj and cols[k][1] == colj:
       k += 1
     elif must:
       i = next((i for i, c in enumerate(colj) if not blank(c)), None)
@@ -201,10 +201,14 @@ def oracle_cells(grid, headers_opt, include, cols):
     return None
   if m[0] == 'lost':
     lo = k - 1 if include else k
-    ws = max([trimmed(r) for r in grid[lo:SAMPLE]] + [0])
-    cut = grid[:SAMPLE] + [r[:ws] for r in grid[SAMPLE:]]
-    if cut != grid and match_columns(cut[k:], header_row, include, cols) is None:
-      return ('late-wide-row', 'a row after the first %d rows is wider than all of them: %s' % (SAMPLE, m[1]))
+    # the violation is of the known kind when it vanishes once the cells of the rows after the sample that lie
+    # beyond some width w are removed, w at least the trimmed width of every kept row of the sample
+    lo_w = max([trimmed(r) for r in grid[lo:SAMPLE]] + [0])
+    hi_w = max([len(r) for r in grid[lo:SAMPLE]] + [lo_w])
+    for ws in range(lo_w, hi_w + 1):
+      cut = grid[:SAMPLE] + [r[:ws] for r in grid[SAMPLE:]]
+      if cut != grid and match_columns(cut[k:], header_row, include, cols) is None:
+        return ('late-wide-row', 'a row after the first %d rows is wider than all of them: %s' % (SAMPLE, m[1]))
   return (m[0], m[1])
 
 
@@ -395,10 +399,15 @@ def coq_case(rows, numeric, case, cols):
   o = '{| o_headers := %s; o_num_rows := %s |}' % (core.optlit(case.get('headers'), core.boollit),
                                                     core.zlit(case.get('num_rows') or 0))
   out = core.coq_list(['(%s, %s)' % (cell_lit(i), core.coq_list([cell_lit(c) for c in d])) for i, d in cols])
-  return '(%s, %s, %s, %s)' % (grid_lit(rows), core.coq_list([cell_lit(c) for c in numeric]), o, out)
+  return '((%s : grid), (%s : list cell), %s, (%s : list (cell * list cell)))' % (
+      grid_lit(rows), core.coq_list([cell_lit(c) for c in numeric]), o, out)
 
 
-CHECK = ('fun c => let \'(g, nums, o, out) := c in out_eqb (erase (import_csv (isnum_of nums) g o)) out')
+# VERIF_C32_REPAIRED=1 compares the implementation with the REPAIRED model instead (used once, on a scratch tree with
+# notes/proposed_fixes/C32-late-wide-row.diff applied, to validate `import_csv_gen true`); the default is the model
+# of the current source.
+MODEL_FN = 'import_csv_gen true' if os.environ.get('VERIF_C32_REPAIRED') else 'import_csv'
+CHECK = ('fun c => let \'(g, nums, o, out) := c in out_eqb (erase (%s (isnum_of nums) g o)) out' % MODEL_FN)
 SPACES = [9, 10, 11, 12, 13, 28, 29, 30, 31, 32, 133, 160, 5760] + list(range(8192, 8203)) + \
          [8232, 8233, 8239, 8287, 12288]
 
@@ -417,7 +426,7 @@ def monitor_whitespace(ctx):
 
 def all_cases(ctx):
   cs = fixed_cases()
-  for _ in range(ctx.n(330, 5000)):
+  for _ in range(ctx.n(330, 4000)):
     cs.append(gen_case(ctx.rng))
   if ctx.tier == 'thorough':
     cs.extend(exhaustive_cases())
@@ -459,7 +468,9 @@ def correspond(ctx):
       ctx.bump('NUM_ROWS given')
     if not res['cols']:
       ctx.bump('no table')
+  ctx.log('implementation run on %d cases; evaluating the model in Coq' % len(coq))
   bad = ctx.run_cases('csv', ['Grist.Model.Csv'], CHECK, coq, shard=ctx.n(48, 400), timeout=900)
+  ctx.log('model evaluated: %d disagreements' % len(bad))
   for i in bad[:5]:
     case = cs[idx[i]]
     ctx.broken('correspondence:Model/Csv.v import_csv differs from imports.import_csv.parse_file',
@@ -491,7 +502,14 @@ def search(ctx):
     ctx.bump('oracle:' + kind)
     reported[kind] = reported.get(kind, 0) + 1
     if reported[kind] <= 3:
-      ctx.violation(kind, what, _replay_of(_shrink(ctx, case, kind)))
+      small = _shrink(ctx, case, kind)
+      try:
+        r2 = check_case(ctx, small)
+      except Exception:
+        r2 = None
+      if r2 is None or r2[0] != kind:
+        small, r2 = case, r
+      ctx.violation(kind, r2[1], _replay_of(small))
   # observation (not a violation): whitespace-only cells that do not appear (beyond the detected width)
   ctx.extra['oracle_kinds'] = reported
 
